@@ -5,6 +5,7 @@ func init() {
 		ID:    "C13",
 		Title: "Errors name the line (and file) of the offending construct",
 		Rules: []string{
+			"R-ERRLINE (who writes tokens): no store into a field of an existing token outside the lexer",
 			"R-FORMAT: every printf-like call (fmt family, and the module functions that hand a parameter on as a format: fail.New, newError, ...) gets a constant format, or the caller's own format parameter",
 			"R-ERRNODE: the node every evaluator error is built from, followed back through parameters and interface conversions, is the construct under evaluation and not one of its operands (InfixExp.Left ...)",
 			"R-EVALORDER: no composite literal of the parser reads the current/next token in one element and calls a token-consuming parser method in another (unspecified evaluation order)",
@@ -17,6 +18,9 @@ func init() {
 		NotDecided:  "TODO",
 		Assumptions: trustedBase,
 		Run: func(m *Model, s *Sink) {
+			m.RunNoReadPastEnd(s, "R-TOKPOS") // an unterminated string or comment does not push the position past the input
+			m.RunIllegalSticky(s, "R-ILLEGAL")
+			m.RunTokenWriters(s, "R-ERRLINE")                                                                // tokens are written by the lexer only
 			m.RunFreshNodes(s, "R-ERRLINE")                                                                  // a node is built for each use: no interning of nodes by name
 			m.RunFormat(s, "R-FORMAT", m.reachableFns(m.Roots().Load, m.Roots().Render, m.Roots().LexParse)) // no text of a template, a path or an error is used as a printf format
 			m.RunEvalOrder(s, "R-EVALORDER")
